@@ -7,6 +7,7 @@ package binary
 // no executable code, excluded from every normal build.
 
 //@ spec thriftbin.smt2
+//@ spec wirelist.smt2
 
 //@ define validSR(sr) = sr != nil && rpos(sr.reader) >= 0 && rpos(sr.reader) <= 4611686018427387904
 // Definitional unfoldings of the spec functions of thriftbin.smt2 (one level).
@@ -309,6 +310,7 @@ package binary
 //@   ensures(len) err == nil ==> wlen(sw.writer) == q0 + 1
 //@   ensures(bytes) err == nil ==> (b ==> wout(sw.writer)[q0] == 1) && (!b ==> wout(sw.writer)[q0] == 0)
 //@   ensures(prefix) prefixKept(sw)
+//@   ensures(mono) wlen(sw.writer) >= q0
 //@   ensures(valid) validSW(sw)
 
 //@ contract (*StreamWriter).WriteInt8
@@ -320,6 +322,7 @@ package binary
 //@   ensures(len) err == nil ==> wlen(sw.writer) == q0 + 1
 //@   ensures(bytes) err == nil ==> int8(wout(sw.writer)[q0]) == i
 //@   ensures(prefix) prefixKept(sw)
+//@   ensures(mono) wlen(sw.writer) >= q0
 //@   ensures(valid) validSW(sw)
 
 //@ contract (*StreamWriter).WriteInt16
@@ -367,18 +370,20 @@ package binary
 //@   ensures(len) err == nil ==> wlen(sw.writer) == q0 + 8
 //@   ensures(bytes) err == nil ==> be64at(wout(sw.writer), q0) == bits(d)
 //@   ensures(prefix) prefixKept(sw)
+//@   ensures(mono) wlen(sw.writer) >= q0
 //@   ensures(valid) validSW(sw)
 
 //@ contract (*StreamWriter).WriteBinary
 //@   props C02
 //@   nopanic
-//@   requires validSW(sw) && len(b) <= 2147483647
+//@   requires validSW(sw)
 //@   let q0 = wlen(sw.writer)
 //@   modifies sw.buffer, wout(sw.writer), wlen(sw.writer)
 //@   ensures(len) err == nil ==> wlen(sw.writer) == q0 + 4 + len(b)
-//@   ensures(hdr) err == nil ==> int64(int32(be32at(wout(sw.writer), q0))) == len(b)
+//@   ensures(hdr) err == nil && len(b) <= 2147483647 ==> int64(int32(be32at(wout(sw.writer), q0))) == len(b)
 //@   ensures(payload) err == nil ==> forall(k, 0, len(b), wout(sw.writer)[q0 + 4 + k] == b[k])
 //@   ensures(prefix) prefixKept(sw)
+//@   ensures(mono) wlen(sw.writer) >= q0
 //@   ensures(valid) validSW(sw)
 
 //@ contract (*StreamWriter).WriteFieldBegin
@@ -390,6 +395,7 @@ package binary
 //@   ensures(len) err == nil ==> wlen(sw.writer) == q0 + 3
 //@   ensures(bytes) err == nil ==> int8(wout(sw.writer)[q0]) == f.Type && int16(be16at(wout(sw.writer), q0 + 1)) == f.ID
 //@   ensures(prefix) prefixKept(sw)
+//@   ensures(mono) wlen(sw.writer) >= q0
 //@   ensures(valid) validSW(sw)
 
 //@ contract (*StreamWriter).WriteStructEnd
@@ -401,6 +407,7 @@ package binary
 //@   ensures(len) err == nil ==> wlen(sw.writer) == q0 + 1
 //@   ensures(bytes) err == nil ==> wout(sw.writer)[q0] == 0
 //@   ensures(prefix) prefixKept(sw)
+//@   ensures(mono) wlen(sw.writer) >= q0
 //@   ensures(valid) validSW(sw)
 
 //@ contract (*StreamWriter).WriteListBegin
@@ -412,6 +419,7 @@ package binary
 //@   ensures(len) err == nil ==> wlen(sw.writer) == q0 + 5
 //@   ensures(bytes) err == nil ==> int8(wout(sw.writer)[q0]) == l.Type && int64(int32(be32at(wout(sw.writer), q0 + 1))) == l.Length
 //@   ensures(prefix) prefixKept(sw)
+//@   ensures(mono) wlen(sw.writer) >= q0
 //@   ensures(valid) validSW(sw)
 
 //@ contract (*StreamWriter).WriteSetBegin
@@ -423,6 +431,7 @@ package binary
 //@   ensures(len) err == nil ==> wlen(sw.writer) == q0 + 5
 //@   ensures(bytes) err == nil ==> int8(wout(sw.writer)[q0]) == s.Type && int64(int32(be32at(wout(sw.writer), q0 + 1))) == s.Length
 //@   ensures(prefix) prefixKept(sw)
+//@   ensures(mono) wlen(sw.writer) >= q0
 //@   ensures(valid) validSW(sw)
 
 //@ contract (*StreamWriter).WriteMapBegin
@@ -434,6 +443,7 @@ package binary
 //@   ensures(len) err == nil ==> wlen(sw.writer) == q0 + 6
 //@   ensures(bytes) err == nil ==> int8(wout(sw.writer)[q0]) == m.KeyType && int8(wout(sw.writer)[q0 + 1]) == m.ValueType && int64(int32(be32at(wout(sw.writer), q0 + 2))) == m.Length
 //@   ensures(prefix) prefixKept(sw)
+//@   ensures(mono) wlen(sw.writer) >= q0
 //@   ensures(valid) validSW(sw)
 
 // ---------------------------------------------------------------------------
@@ -633,6 +643,109 @@ package binary
 //@   ensures(legacy) err == nil && avail >= 2 && b0 == 0 ==> typeis(result1, *EnvelopeV0Responder)
 //@   ensures(versioned) err == nil && avail >= 2 && b0 & 128 != 0 ==> typeis(result1, *EnvelopeV1Responder)
 //@   ensures(bare) err == nil && avail >= 2 && b0 != 0 && b0 & 128 == 0 ==> typeis(result1, *noEnvelopeResponder)
+
+// ---------------------------------------------------------------------------
+// Tree-level writer (writer.go, C02): WriteValue delegates every scalar to the
+// stream writer with the accessor of its own type (byte-exact posts follow
+// from the StreamWriter contracts), every container starts with the header of
+// its own element/key/value types and size, a struct ends with the stop byte,
+// every field starts with its own (type, id) header; nothing written earlier
+// is ever changed. Elements are written by ForEach callbacks (assumed
+// contract: callbacks only append to writers, A-FOREACH-APPEND), so "every
+// element is written, in order" is not an obligation here.
+
+//@ define bwValid(bw) = bw != nil && bw.sw != nil && validSW(bw.sw)
+
+//@ contract (*Writer).WriteValue
+//@   props C02
+//@   requires bwValid(bw)
+//@   let w = bw.sw.writer
+//@   let q0 = wlen(bw.sw.writer)
+//@   let sw0 = bw.sw
+//@   modifies all
+//@   ensures(kept) unchanged(Writer, sw) && unchanged(StreamWriter, writer) && validSW(sw0)
+//@   ensures(prefix) wlen(w) >= q0 && forall(j, 0, q0, wout(w)[j] == old(wout(w))[j])
+//@   ensures(bool) err == nil && v.typ == 2 ==> wlen(w) == q0 + 1 && (v.tnumber != 0 ==> wout(w)[q0] == 1) && (v.tnumber == 0 ==> wout(w)[q0] == 0)
+//@   ensures(i8) err == nil && v.typ == 3 ==> wlen(w) == q0 + 1 && int8(wout(w)[q0]) == int8(v.tnumber)
+//@   ensures(double) err == nil && v.typ == 4 ==> wlen(w) == q0 + 8 && be64at(wout(w), q0) == v.tnumber
+//@   ensures(i16) err == nil && v.typ == 6 ==> wlen(w) == q0 + 2 && int16(be16at(wout(w), q0)) == int16(v.tnumber)
+//@   ensures(i32) err == nil && v.typ == 8 ==> wlen(w) == q0 + 4 && int32(be32at(wout(w), q0)) == int32(v.tnumber)
+//@   ensures(i64) err == nil && v.typ == 10 ==> wlen(w) == q0 + 8 && int64(be64at(wout(w), q0)) == int64(v.tnumber)
+//@   ensures(binary) err == nil && v.typ == 11 && len(v.tbinary) <= 2147483647 ==> wlen(w) == q0 + 4 + len(v.tbinary) && int64(int32(be32at(wout(w), q0))) == len(v.tbinary) && forall(k, 0, len(v.tbinary), wout(w)[q0 + 4 + k] == v.tbinary[k])
+//@   ensures(struct) err == nil && v.typ == 12 ==> wlen(w) >= q0 + 1 && wout(w)[wlen(w) - 1] == 0
+//@   ensures(map) err == nil && v.typ == 13 ==> wlen(w) >= q0 + 6 && int8(wout(w)[q0]) == mlKeyType(v.tcoll) && int8(wout(w)[q0 + 1]) == mlValueType(v.tcoll) && int64(int32(be32at(wout(w), q0 + 2))) == mlSize(v.tcoll)
+//@   ensures(set) err == nil && v.typ == 14 ==> wlen(w) >= q0 + 5 && int8(wout(w)[q0]) == vlType(v.tcoll) && int64(int32(be32at(wout(w), q0 + 1))) == vlSize(v.tcoll)
+//@   ensures(list) err == nil && v.typ == 15 ==> wlen(w) >= q0 + 5 && int8(wout(w)[q0]) == vlType(v.tcoll) && int64(int32(be32at(wout(w), q0 + 1))) == vlSize(v.tcoll)
+//@   ensures(unknown) !knownty(v.typ) ==> err != nil
+
+//@ contract (*Writer).writeField
+//@   props C02
+//@   requires bwValid(bw)
+//@   let w = bw.sw.writer
+//@   let q0 = wlen(bw.sw.writer)
+//@   let sw0 = bw.sw
+//@   modifies all
+//@   ensures(kept) unchanged(Writer, sw) && unchanged(StreamWriter, writer) && validSW(sw0)
+//@   ensures(prefix) wlen(w) >= q0 && forall(j, 0, q0, wout(w)[j] == old(wout(w))[j])
+//@   ensures(hdr) err == nil ==> wlen(w) >= q0 + 3 && int8(wout(w)[q0]) == f.Value.typ && int16(be16at(wout(w), q0 + 1)) == f.ID
+
+//@ contract (*Writer).writeStruct
+//@   props C02
+//@   requires bwValid(bw)
+//@   let w = bw.sw.writer
+//@   let q0 = wlen(bw.sw.writer)
+//@   let sw0 = bw.sw
+//@   modifies all
+//@   loop 1: invariant bw.sw == sw0 && sw0.writer == w && validSW(sw0) && wlen(w) >= q0 && forall(j, 0, q0, wout(w)[j] == old(wout(w))[j])
+//@   loop 1: invariant(fieldsframe) unchanged(Writer, sw) && unchanged(StreamWriter, writer)
+//@   loop 1: invariant(nofields) ridx >= -1 && ridx < len(s.Fields) && (ridx == -1 ==> wlen(w) == q0)
+//@   ensures(kept) unchanged(Writer, sw) && unchanged(StreamWriter, writer) && validSW(sw0)
+//@   ensures(prefix) wlen(w) >= q0 && forall(j, 0, q0, wout(w)[j] == old(wout(w))[j])
+//@   ensures(stop) err == nil ==> wlen(w) >= q0 + 1 && wout(w)[wlen(w) - 1] == 0
+//@   ensures(empty) err == nil && len(s.Fields) == 0 ==> wlen(w) == q0 + 1
+
+//@ contract (*Writer).realWriteMapItem
+//@   props C02
+//@   requires bwValid(bw)
+//@   let w = bw.sw.writer
+//@   let q0 = wlen(bw.sw.writer)
+//@   let sw0 = bw.sw
+//@   modifies all
+//@   ensures(kept) unchanged(Writer, sw) && unchanged(StreamWriter, writer) && validSW(sw0)
+//@   ensures(prefix) wlen(w) >= q0 && forall(j, 0, q0, wout(w)[j] == old(wout(w))[j])
+
+//@ contract (*Writer).writeMap
+//@   props C02
+//@   requires bwValid(bw)
+//@   let w = bw.sw.writer
+//@   let q0 = wlen(bw.sw.writer)
+//@   let sw0 = bw.sw
+//@   modifies all
+//@   ensures(kept) unchanged(Writer, sw) && unchanged(StreamWriter, writer) && validSW(sw0)
+//@   ensures(prefix) wlen(w) >= q0 && forall(j, 0, q0, wout(w)[j] == old(wout(w))[j])
+//@   ensures(hdr) err == nil ==> wlen(w) >= q0 + 6 && int8(wout(w)[q0]) == mlKeyType(m) && int8(wout(w)[q0 + 1]) == mlValueType(m) && int64(int32(be32at(wout(w), q0 + 2))) == mlSize(m)
+
+//@ contract (*Writer).writeSet
+//@   props C02
+//@   requires bwValid(bw)
+//@   let w = bw.sw.writer
+//@   let q0 = wlen(bw.sw.writer)
+//@   let sw0 = bw.sw
+//@   modifies all
+//@   ensures(kept) unchanged(Writer, sw) && unchanged(StreamWriter, writer) && validSW(sw0)
+//@   ensures(prefix) wlen(w) >= q0 && forall(j, 0, q0, wout(w)[j] == old(wout(w))[j])
+//@   ensures(hdr) err == nil ==> wlen(w) >= q0 + 5 && int8(wout(w)[q0]) == vlType(s) && int64(int32(be32at(wout(w), q0 + 1))) == vlSize(s)
+
+//@ contract (*Writer).writeList
+//@   props C02
+//@   requires bwValid(bw)
+//@   let w = bw.sw.writer
+//@   let q0 = wlen(bw.sw.writer)
+//@   let sw0 = bw.sw
+//@   modifies all
+//@   ensures(kept) unchanged(Writer, sw) && unchanged(StreamWriter, writer) && validSW(sw0)
+//@   ensures(prefix) wlen(w) >= q0 && forall(j, 0, q0, wout(w)[j] == old(wout(w))[j])
+//@   ensures(hdr) err == nil ==> wlen(w) >= q0 + 5 && int8(wout(w)[q0]) == vlType(l) && int64(int32(be32at(wout(w), q0 + 1))) == vlSize(l)
 
 // ---------------------------------------------------------------------------
 // Random-access decoder (reader.go): an *offsetReader presents an io.ReaderAt as
